@@ -309,11 +309,20 @@ func runC04(r *Rng, n int, tier string) {
 				file.WriteString("\n")
 			}
 		}
-		files := map[string]string{"schema.sql": schema, "query.sql": file.String(), "sqlc.json": confV1(engine, "")}
+		qtext := file.String()
+		crlf := i%4 == 3
+		if crlf {
+			// the same file as written by a Windows editor
+			qtext = strings.ReplaceAll(qtext, "\n", "\r\n")
+		}
+		files := map[string]string{"schema.sql": schema, "query.sql": qtext, "sqlc.json": confV1(engine, "")}
 		res := generate(files)
 		var stj []J
 		impl := J{"ok": res.OK()}
 		var tags []string
+		if crlf {
+			tags = append(tags, "crlf")
+		}
 		if res.OK() {
 			sum := summarize(res.Files)
 			for _, st := range sts {
